@@ -1269,6 +1269,12 @@ func readMultipartForm(r io.Reader, boundary string, size, maxInMemoryFileSize i
 	if err != nil {
 		return nil, fmt.Errorf("cannot read multipart/form-data body: %w", err)
 	}
+	// Discard what follows the closing boundary, so exactly size bytes are
+	// consumed from r and the epilogue isn't left for the next message.
+	if _, err = io.Copy(io.Discard, lr); err != nil {
+		f.RemoveAll() //nolint:errcheck
+		return nil, fmt.Errorf("cannot read multipart/form-data body: %w", err)
+	}
 	return f, nil
 }
 
